@@ -62,6 +62,10 @@ CLAIMS["C14"] = ("other", "guard-dominance check of every did-flag store against
   "Decides the did ⇒ chance implications, counter discipline, fold pairing, 3-bet uniqueness shape and the reset, on every path of the action methods and settlement. One construct breaks the did ⇒ chance shape but is dead code on this tree; it is reported as LATENT while the side condition that makes it dead is re-proved on each run. Whether the chance predicates implement poker's definitions is not decided.",
   "DESIGN.md §4 C14, §5 F2", TRUST)
 
+CLAIMS["C02"] = ("other", "provenance of the hand index / player index in every action method, shape check of the hand-list builder's seat scan (induction range = one full circle over the seat map), who-may-write of the hand index list, definitional check of the two translators, append/copy-and-patch shape of joins",
+  "Decides that the id → hand index → player index translation is carried unchanged through every action, hand start and settlement, and that the hand list is built only from a full-circle seat-map scan of dealt-in players. One genuine defect (short-deck hand order by join order) was repaired (fix: commit). Numeric correctness of seat order for every fake-dealer layout is not decided.",
+  "DESIGN.md §4 C02, §5 F10", TRUST)
+
 REASONS = {}
 
 checks = []
